@@ -93,10 +93,14 @@ structure DRec where
   urlparse : Option (Except Exn Bytes)
   handler : Option HRec
   isAdmin : Bool
+  /-- after this dispatch the connection's controller id is set and no longer paired -/
+  selfGone : Bool
 
 structure DQ where
   recs : List DRec
   desync : Option String := none
+  /-- `selfGone` of the dispatch record consumed last -/
+  selfGone : Bool := false
 
 def paramsOf (rec : DRec) : Params DQ :=
   { urlparse := fun _ => match rec.urlparse with
@@ -125,8 +129,13 @@ def tdisp : Disp DQ := fun w req body =>
     let got := (if rec.urlparse.isSome then ["urlparse"] else []) ++
       (match rec.handler with | some h => [h.name] | none => [])
     let bad := if want == got then none else some s!"dispatch makes calls {want}, transcript has {got}"
-    let w1 : World DQ := { w with st := { recs := rest, desync := orElse w.st.desync bad } }
+    let w1 : World DQ := { w with st := { recs := rest, desync := orElse w.st.desync bad, selfGone := rec.selfGone } }
     .ok (dispatch Gen.routes P w1 req body)
+
+/-- `_close_unpaired_sessions` as recorded: this connection is torn down (flag cleared, closed)
+    iff its controller was no longer paired after the dispatch -/
+def ttd : Teardown DQ := fun w =>
+  ({ w with verified := if w.st.selfGone then false else w.verified }, w.st.selfGone)
 
 /-! ### JSON -/
 
@@ -137,7 +146,8 @@ def respOf (j : Json) : R Resp := do
     | _ => throw "resp header must be [str, str]"
   pure { status := ← getNat j "status", headers := hs, body := ← getHex j "body",
          task := ← getBool j "task", sharedKey := ← getBool j "shared_key",
-         pairingChanged := ← getBool j "pairing_changed" }
+         pairingChanged := ← getBool j "pairing_changed",
+         pairingRemoved := (j.getObjValAs? Bool "pairing_removed").toOption.getD false }
 
 def optStr (j : Json) (k : String) : Option String :=
   match j.getObjVal? k with
@@ -196,7 +206,8 @@ def drecOf (j : Json) : R DRec := do
       pure (some { name := ← getStr v "name", resp := ← respOf (← getObj v "resp"),
                    exn := (optStr v "exn").map exnOf,
                    verifiedAfter := ← getBool v "verified_after", uuidAfter := ← getBool v "uuid_after" : HRec })
-  pure { urlparse := up, handler := h, isAdmin := ← getBool j "is_admin" }
+  pure { urlparse := up, handler := h, isAdmin := ← getBool j "is_admin",
+         selfGone := (j.getObjValAs? Bool "self_gone").toOption.getD false }
 
 def exnName : Exn → String
   | .unprivileged => "UnprivilegedRequestException"
@@ -237,11 +248,11 @@ def handle (j : Json) : R Json := do
     for cb in cbs do
       let kind ← getStr cb "cb"
       let (c1, o) ← match kind with
-        | "data" => pure (dataReceived transcriptH11 tdisp (fun b => some b) fuel c (← getHex cb "data"))
+        | "data" => pure (dataReceived transcriptH11 tdisp ttd (fun b => some b) fuel c (← getHex cb "data"))
         | "ready" =>
           let res ← outcomeOf cb
-          pure (runCallback transcriptH11 tdisp id c (.ready res))
-        | "lost" => pure (runCallback transcriptH11 tdisp id c .lost)
+          pure (runCallback transcriptH11 tdisp ttd id c (.ready res))
+        | "lost" => pure (runCallback transcriptH11 tdisp ttd id c .lost)
         | k => throw s!"unknown callback {k}"
       c := endCallback c1
       let esc := match o with
